@@ -16,10 +16,13 @@ A third rewrite removes a layout difference of newer Python:
     for a name the slice keeps the kind of the sequence, which only matters for tuples - restricted to split results)
 Assignment expressions elsewhere (right operand of and/or, comprehensions) are left alone.
   * if A and (x := e) ...: body  (no else branch)          -> if A: x = e; if x ...: body
+  * a, s, b = name.partition(sep) / rpartition(sep)   -> a = <call>[0]; s = <call>[1]; b = <call>[2]   (always a 3-tuple)
   * a, b = os.path.split(p) / os.path.splitext(p)  (p built from names and os.path calls)   -> a = <call>[0]; b = <call>[1]
   * match <name or attribute>: case <literal> | <literal>: ... case Cls(): ... case _: ...   -> the if / elif / else chain with == tests,
     `is` for None/True/False, isinstance for class patterns without sub-patterns (other patterns: the statement is left alone)
   * for x in itertools.chain.from_iterable(f(y) for y in Y): body   (no break, no else)   -> for y in Y: for x in f(y): body
+  * getattr(x, 'lit', None)  -> (x.lit if hasattr(x, 'lit') else None)
+  * collections.deque(xs) without maxlen -> list(xs); q.popleft() -> q.pop(0); q.appendleft(x) -> q.insert(0, x)   (a work list is read as a list)
   * operator.itemgetter(i, j) / operator.attrgetter('a')   -> lambda s: (s[i], s[j]) / lambda o: o.a   (same value for every call)
   * P = functools.partial(F, *a, **k) at module level (bound once) ... P(*b, **l)   -> F(*a, *b, **k, **l)  (l overrides k)
   * a, b = x, y  (names on the left, no left name read by a later right side)   -> a = x; b = y
@@ -135,6 +138,7 @@ class Normaliser(ast.NodeTransformer):
         self.op_mods, self.op_funcs = set(), {}          # spellings of operator / operator.itemgetter|attrgetter
         self.ft_mods, self.ft_partial = set(), set()     # spellings of functools / functools.partial
         self.partials = {}                               # module level name -> the partial(...) call it is bound to (bound once)
+        self.const_tables = {}                           # module level name -> literal tuple / list of constants it is bound to (once)
         for n in ast.walk(tree) if tree is not None else ():
             if isinstance(n, ast.Import):
                 for a in n.names:
@@ -169,6 +173,12 @@ class Normaliser(ast.NodeTransformer):
                         and bound.get(st.targets[0].id) == 1 and st.targets[0].id not in rebound_inside \
                         and not any(isinstance(a, ast.Starred) for a in st.value.args) and not any(k.arg is None for k in st.value.keywords):
                     self.partials[st.targets[0].id] = st.value
+                if isinstance(st, ast.Assign) and len(st.targets) == 1 and isinstance(st.targets[0], ast.Name) \
+                        and isinstance(st.value, (ast.Tuple, ast.List)) and st.value.elts and bound.get(st.targets[0].id) == 1 \
+                        and st.targets[0].id not in rebound_inside \
+                        and all(isinstance(e, ast.Constant) or (isinstance(e, (ast.Tuple, ast.List)) and all(_simple(v) for v in e.elts))
+                                for e in st.value.elts):
+                    self.const_tables[st.targets[0].id] = st.value
 
     def _is_partial(self, fn):
         if isinstance(fn, ast.Name):
@@ -329,6 +339,15 @@ class Normaliser(ast.NodeTransformer):
                               value=ast.Subscript(value=copy.deepcopy(v), slice=ast.Slice(lower=ast.Constant(value=1)), ctx=ast.Load()),
                               lineno=st.lineno)
             return [ast.copy_location(first, st), ast.copy_location(rest, st)]
+        if isinstance(t, (ast.Tuple, ast.List)) and len(t.elts) == 3 and all(isinstance(e, ast.Name) for e in t.elts) \
+                and len(set(e.id for e in t.elts)) == 3 and isinstance(v, ast.Call) and isinstance(v.func, ast.Attribute) \
+                and v.func.attr in ("partition", "rpartition") and len(v.args) == 1 and isinstance(v.args[0], ast.Constant) and not v.keywords \
+                and isinstance(v.func.value, ast.Name) and v.func.value.id not in [e.id for e in t.elts]:
+            out = []
+            for i, e in enumerate(t.elts):
+                sub = ast.Subscript(value=copy.deepcopy(v), slice=ast.Constant(value=i), ctx=ast.Load())
+                out.append(ast.copy_location(ast.Assign(targets=[ast.Name(id=e.id, ctx=ast.Store())], value=sub, lineno=st.lineno), st))
+            return out
         if isinstance(t, (ast.Tuple, ast.List)) and len(t.elts) == 2 and all(isinstance(e, ast.Name) for e in t.elts) \
                 and t.elts[0].id != t.elts[1].id and self._is_path_pair_call(v) \
                 and not any(isinstance(y, ast.Name) and y.id in (t.elts[0].id, t.elts[1].id) for y in ast.walk(v)):
@@ -405,6 +424,13 @@ class Normaliser(ast.NodeTransformer):
         return t in ("chain.from_iterable", "itertools.chain.from_iterable")
 
     def visit_For(self, st):
+        # a loop over a module level table of literals (bound once, never re-bound) is the loop over that literal
+        if isinstance(st.iter, ast.Name) and st.iter.id in self.const_tables and isinstance(self.const_tables[st.iter.id], (ast.Tuple, ast.List)):
+            lit = copy.deepcopy(self.const_tables[st.iter.id])
+            probe = copy.copy(st)
+            probe.iter = lit
+            if _pairs_unrollable(probe) or _loop_unrollable(probe):
+                st.iter = ast.copy_location(lit, st.iter)
         it = st.iter
         if isinstance(it, ast.Call) and self._is_chain_from_iterable(it.func) and len(it.args) == 1 and not it.keywords and not st.orelse \
                 and isinstance(it.args[0], (ast.GeneratorExp, ast.ListComp)) and len(it.args[0].generators) == 1 \
@@ -451,6 +477,22 @@ class Normaliser(ast.NodeTransformer):
             kws = [copy.deepcopy(k) for k in pc.keywords if k.arg not in later] + c.keywords
             new = ast.Call(func=copy.deepcopy(pc.args[0]), args=[copy.deepcopy(a) for a in pc.args[1:]] + c.args, keywords=kws)
             return ast.copy_location(new, c)
+        if isinstance(c.func, ast.Name) and c.func.id == "getattr" and len(c.args) == 3 and not c.keywords and _simple(c.args[0]) \
+                and isinstance(c.args[1], ast.Constant) and isinstance(c.args[1].value, str) and c.args[1].value.isidentifier() \
+                and isinstance(c.args[2], ast.Constant):
+            has = ast.Call(func=ast.Name(id="hasattr", ctx=ast.Load()), args=[copy.deepcopy(c.args[0]), c.args[1]], keywords=[])
+            return ast.copy_location(ast.IfExp(test=has, body=ast.Attribute(value=c.args[0], attr=c.args[1].value, ctx=ast.Load()),
+                                               orelse=c.args[2]), c)
+        # a deque used as a plain work list
+        ft = ast.unparse(c.func)
+        if ft in ("deque", "collections.deque") and len(c.args) <= 1 and not c.keywords:
+            return ast.copy_location(ast.Call(func=ast.Name(id="list", ctx=ast.Load()), args=c.args, keywords=[]), c)
+        if isinstance(c.func, ast.Attribute) and c.func.attr == "popleft" and not c.args and not c.keywords:
+            return ast.copy_location(ast.Call(func=ast.Attribute(value=c.func.value, attr="pop", ctx=ast.Load()),
+                                              args=[ast.Constant(value=0)], keywords=[]), c)
+        if isinstance(c.func, ast.Attribute) and c.func.attr == "appendleft" and len(c.args) == 1 and not c.keywords:
+            return ast.copy_location(ast.Call(func=ast.Attribute(value=c.func.value, attr="insert", ctx=ast.Load()),
+                                              args=[ast.Constant(value=0), c.args[0]], keywords=[]), c)
         gk = self._getter_kind(c.func)
         if gk == "itemgetter" and c.args and not c.keywords and all(isinstance(a, ast.Constant) for a in c.args):
             prm = ast.arg(arg="_seq")
